@@ -313,6 +313,7 @@ func (r *Run) Finish() {
 
 func PickU32(rng *rand.Rand, xs ...uint32) uint32 { return xs[rng.Intn(len(xs))] }
 func PickI(rng *rand.Rand, xs ...int) int         { return xs[rng.Intn(len(xs))] }
+func PickI64(rng *rand.Rand, xs ...int64) int64   { return xs[rng.Intn(len(xs))] }
 func PickF(rng *rand.Rand, xs ...float64) float64 { return xs[rng.Intn(len(xs))] }
 func PickS(rng *rand.Rand, xs ...string) string   { return xs[rng.Intn(len(xs))] }
 func Chance(rng *rand.Rand, p float64) bool       { return rng.Float64() < p }
